@@ -22,10 +22,10 @@ MaxMergeEv(S, mz, mn) == LET C == UNION {Ancestors(t, mn) : t \in S} IN
                          {t \in C : Cov(S, mz, t) /\ (t[3] = mn \/ ~Cov(S, mz, Parent3(t)))}
 LineOk(e) == LET c == ToSet(e.cover) IN
    /\ e.err = 0 /\ Len(e.cover) = Cardinality(c)
-   /\ IF \E i \in 1..Len(e.paths) : PositiveLength(e.paths[i])
-      THEN /\ UNION {Must(e.u, e.paths[i], e.w) : i \in 1..Len(e.paths)} \subseteq c
-           /\ c \subseteq UNION {May(e.u, e.paths[i], e.w) : i \in 1..Len(e.paths)}
-      ELSE TRUE                                            \* zero-length lines are outside the quantifier
+   \* zero-length lines are outside the quantifier: member by member, a zero-length path demands nothing (and may
+   \* contribute its tile or not)
+   /\ UNION {Must(e.u, e.paths[i], e.w) : i \in {j \in 1..Len(e.paths) : PositiveLength(e.paths[j])}} \subseteq c
+   /\ c \subseteq UNION {May(e.u, e.paths[i], e.w) : i \in 1..Len(e.paths)}
 PolyOk(e) == LET c == ToSet(e.cover) IN
    /\ e.err = 0
    /\ \A i \in 1..Len(e.polys) : MustInterior(e.u, e.polys[i], e.w) \subseteq c /\ MustBoundary(e.u, e.polys[i], e.w) \subseteq c
